@@ -242,6 +242,37 @@ def run_drive(binary, driver, out_path, seed, n, extra=(), timeout=1800):
     return fails, summary
 
 
+def run_repo_tests(events_path):
+    """The repository's own unit tests, conformance tests and doc tests, run with the verification hooks on
+    (--cfg purl_verif): every from_str / build / Display call they make is appended to events_path."""
+    import fcntl
+    repo = os.environ.get("VERIF_REPO", "/repo")
+    tdir = os.path.join(WORK, "repo-tests-target" + ("" if repo == "/repo" else "-" + hashlib.sha1(repo.encode()).hexdigest()[:10]))
+    os.makedirs(tdir, exist_ok=True)
+    if os.path.exists(events_path):
+        os.remove(events_path)
+    env = dict(os.environ, CARGO_NET_OFFLINE="true", CARGO_TARGET_DIR=tdir, PURL_VERIF_TRACE=events_path,
+               RUSTFLAGS="--cfg purl_verif -Awarnings", RUSTDOCFLAGS="--cfg purl_verif -Awarnings")
+    cmd = ["cargo", "test", "--offline", "--quiet", "-p", "purl", "-p", "purl_test", "--no-fail-fast", "--", "--test-threads", "4"]
+    t0 = time.time()
+    with open(os.path.join(tdir, ".verif-build.lock"), "w") as lock:
+        fcntl.flock(lock, fcntl.LOCK_EX)
+        p = subprocess.run(cmd, cwd=repo, env=env, stdout=subprocess.PIPE, stderr=subprocess.STDOUT, text=True)
+    passed = sum(int(m) for m in re.findall(r"test result: \w+\. (\d+) passed", p.stdout))
+    failed = sum(int(m) for m in re.findall(r"(\d+) failed", p.stdout))
+    if "error: could not compile" in p.stdout or "error[" in p.stdout:
+        raise ToolError("repository tests with hooks did not compile:\n%s" % p.stdout[-3000:])
+    if not os.path.exists(events_path):
+        raise ToolError("the hooked test run recorded nothing:\n%s" % p.stdout[-2000:])
+    log("[repo-tests] %d passed, %d failed, %d events, %.1fs" % (passed, failed, count_lines(events_path), time.time() - t0))
+    summ = dict(asserts={}, counters=dict(repo_tests_passed=passed, repo_tests_failed=failed), samples=[])
+    with open(events_path) as f:
+        for i, line in enumerate(f):
+            if i in (0, 40, 200):
+                summ["samples"].append(json.loads(line))
+    return [], summ
+
+
 # --------------------------------------------------------------------------- trace validation
 
 def count_lines(path):
